@@ -31,6 +31,18 @@ def scratch_base() -> str:
         root = '/dev/shm' if os.path.isdir('/dev/shm') else '/tmp'
         _base = os.path.join(root, f'mtbsim-{os.getpid()}')
         shutil.rmtree(_base, ignore_errors=True)
+        # scratch directories of processes that were killed: nobody else removes them
+        try:
+            for d in os.listdir(root):
+                if d.startswith('mtbsim-') and d[7:].isdigit():
+                    try:
+                        os.kill(int(d[7:]), 0)
+                    except ProcessLookupError:
+                        shutil.rmtree(os.path.join(root, d), ignore_errors=True)
+                    except OSError:
+                        pass
+        except OSError:
+            pass
         os.makedirs(os.path.join(_base, 'tmp'))
         _owner_pid = os.getpid()
         atexit.register(cleanup)
